@@ -139,6 +139,11 @@ func (conn *Connection) RequestSetResult(resultPtr any, method string, params ..
 		return fmt.Errorf("%w: %s", ErrInvalidResponseFormat, err)
 	}
 
+	// A literal JSON null body unmarshals successfully, but resets the pointer to nil.
+	if responseObj == nil {
+		return fmt.Errorf("%w: %s", ErrInvalidResponseFormat, bodyString)
+	}
+
 	if responseObj.Error != nil {
 		return responseObj.Error
 	}
